@@ -682,10 +682,83 @@ def return_of_temporary(fnode):
     return changed
 
 
+def arguments_of_temporaries(fnode):
+    """t1 = E1; t2 = E2; S        with S a simple statement whose whole value is one call f(.., t1, .., k=t2, ..)   ->   S with E1, E2 in place
+    Conditions: each t is a plain local bound once and read once - as a direct argument of that call -, the run of such bindings sits
+    immediately in front of S, their order is the order of their uses in the call (evaluation order is kept), f is a name / attribute path,
+    and no nested function mentions them.  (The inverse of `give every argument a name`.)"""
+    stores, loads = {}, {}
+    for n in ast.walk(fnode):
+        if isinstance(n, ast.Name):
+            d = stores if isinstance(n.ctx, (ast.Store, ast.Del)) else loads
+            d[n.id] = d.get(n.id, 0) + 1
+    a = fnode.args
+    params = {p.arg for p in a.posonlyargs + a.args + a.kwonlyargs} | ({a.vararg.arg} if a.vararg else set()) | ({a.kwarg.arg} if a.kwarg else set())
+    declared = {x for n in ast.walk(fnode) if isinstance(n, (ast.Global, ast.Nonlocal)) for x in n.names}
+    nested = {x.id for n in ast.walk(fnode) if n is not fnode and isinstance(n, (ast.FunctionDef, ast.AsyncFunctionDef, ast.Lambda)) for x in ast.walk(n) if isinstance(x, ast.Name)}
+
+    def is_path(e):
+        while isinstance(e, ast.Attribute):
+            e = e.value
+        return isinstance(e, ast.Name)
+    changed = False
+    for owner in ast.walk(fnode):
+        for fld in ("body", "orelse", "finalbody"):
+            lst = getattr(owner, fld, None)
+            if not (isinstance(lst, list) and lst and isinstance(lst[0], ast.stmt)):
+                continue
+            k = 0
+            while k < len(lst):
+                st = lst[k]
+                call = st.value if isinstance(st, (ast.Assign, ast.Expr, ast.Return)) and isinstance(getattr(st, "value", None), ast.Call) else None
+                if call is None or not is_path(call.func) or any(isinstance(x, ast.Starred) for x in call.args) or any(kw.arg is None for kw in call.keywords):
+                    k += 1
+                    continue
+                slots = [("a", i) for i in range(len(call.args))] + [("k", i) for i in range(len(call.keywords))]
+                arg_names = []
+                for kind, i in slots:
+                    v = call.args[i] if kind == "a" else call.keywords[i].value
+                    if isinstance(v, ast.Name) and stores.get(v.id) == 1 and loads.get(v.id) == 1 and v.id not in params | declared | nested:
+                        arg_names.append((v.id, kind, i))
+                # the maximal run of bindings right in front of the statement that binds such arguments, in use order
+                j = k
+                run = []
+                want = {nm for nm, _, _ in arg_names}
+                while j - 1 >= 0 and want:
+                    p_ = lst[j - 1]
+                    if isinstance(p_, ast.Assign) and len(p_.targets) == 1 and isinstance(p_.targets[0], ast.Name) and p_.targets[0].id in want \
+                            and not any(isinstance(x, (ast.Yield, ast.YieldFrom, ast.Await, ast.NamedExpr)) for x in ast.walk(p_.value)):
+                        run.insert(0, p_)
+                        want.discard(p_.targets[0].id)
+                        j -= 1
+                    else:
+                        break
+                # the bindings are evaluated in the order their values are then evaluated as arguments
+                # .. (the latest bindings that are in use order; an earlier one that is used out of order keeps its name)
+                while run and [p_.targets[0].id for p_ in run] != [nm for nm, _, _ in arg_names if nm in [p_.targets[0].id for p_ in run]]:
+                    run.pop(0)
+                    j += 1
+                if not run:
+                    k += 1
+                    continue
+                vals = {p_.targets[0].id: p_.value for p_ in run}
+                for nm, kind, i in arg_names:
+                    if nm in vals:
+                        if kind == "a":
+                            call.args[i] = vals[nm]
+                        else:
+                            call.keywords[i].value = vals[nm]
+                del lst[j:k]
+                k = j + 1
+                changed = True
+    return changed
+
+
 def apply_synonyms(repo):
     n = 0
     for f in repo.funcs.values():
         before = ast.dump(f.node)
+        arguments_of_temporaries(f.node)
         return_of_temporary(f.node)
         if f.name == "main":
             canonical_args_local(f.node)
